@@ -448,4 +448,13 @@ Section Numeric.
     bind (get_materials cards) (fun mats =>
     bind (convert_all mats) (fun conv =>
     bind (construct conv cells) (fun d => Ok (composition_lines_of d)))).
+
+  (* what writeT4Composition leaves in the file: the opening line is written
+     BEFORE constructCompositionT4 runs, so an exception leaves it behind *)
+  Definition composition_written (cards : list string) (cells : list cell)
+    : list string * option err :=
+    match composition_lines cards cells with
+    | Ok l => (l, None)
+    | Err e => ([""; "COMPOSITION"], Some e)
+    end.
 End Numeric.
